@@ -133,8 +133,8 @@ func c11CheckBytes(r *kit.Run, s string) {
 			if len(text) < len(want) {
 				cls = "strip:swallows-text"
 			}
-			if c11IsBareOsc8Close(s) {
-				cls = c11BareOsc8Class
+			if text == c11RegexBareClose.ReplaceAllString(s, "") {
+				cls = c11BareOsc8Class // exactly what the scanner's one deliberate extension predicts
 			}
 			r.Violation(cls, d)
 		}
@@ -166,10 +166,8 @@ func c11CheckBytes(r *kit.Run, s string) {
 // does not. That single shape gets its own class; every other disagreement is "scanner!=regex:<alt>".
 const c11BareOsc8Class = "scanner!=regex:osc8-close-with-bare-esc"
 
-func c11IsBareOsc8Close(s string) bool {
-	i := strings.Index(s, "\x1b]8;;\x1b")
-	return i >= 0 && !strings.HasPrefix(s[i+6:], "\\")
-}
+// the documented expression plus that one extension (NOT the reference; only used to recognise the shape)
+var c11RegexBareClose = regexp.MustCompile("(?:\x1b[\\[()][0-9;:?]*[a-zA-Z@]|\x1b][0-9]+[;:][[:print:]]+(?:\x1b\\\\|\x07)|\x1b]8;;\x1b|\x1b.|[\x0e\x0f]|.\x08)")
 
 func c11ScanClass(s string, st, en, ws, we int, alt string) string {
 	if st == ws && st >= 0 && strings.HasPrefix(s[st:], "\x1b]8;;\x1b") && en == st+6 && we == ws+2 {
@@ -194,7 +192,7 @@ func TestVerif_C11_bytes(t *testing.T) {
 		c11CheckBytes(r, s)
 		return
 	}
-	n := r.Pick(4, 5)
+	n := r.Pick(5, 6)
 	r.Param("alphabet", strconv.Quote(string(c11Alphabet)))
 	r.Param("max_len", fmt.Sprint(n))
 	idx := 0
@@ -231,7 +229,7 @@ func TestVerif_C11_osc(t *testing.T) {
 		}
 		return
 	}
-	n := r.Pick(5, 6)
+	n := r.Pick(6, 7)
 	r.Param("prefix", strconv.Quote("\x1b]"))
 	r.Param("alphabet", strconv.Quote(string(c11OscAlphabet)))
 	r.Param("max_len_after_prefix", fmt.Sprint(n))
